@@ -2,6 +2,7 @@
   Helper lemmas for property C19 (the script-command wrapper `aliasRun`).
 -/
 import DuckModel.Sdk.AliasCmd
+import DuckModel.Generated.Scripts
 
 namespace Duck.Alias
 open Duck
@@ -317,5 +318,82 @@ theorem storeOps_lawful : storeOps.Lawful where
   live_setCtx s c k := rfl
   ctx_setCtx s c := rfl
   ctx_remove s h := rfl
+
+variable {σ : Type}
+
+/-! ### `aliasRun` in one equation -/
+
+theorem aliasRun_few (H : HandleOps σ) (amount : Nat) (body : Vars → σ → BodyResult × Vars × σ)
+    (scope : Str) (args : List Str) (vars : Vars) (st : σ) (h : args.length < amount) :
+    aliasRun H amount body scope args vars st = (.error invalidArgsMsg, vars, st) := by
+  simp [aliasRun, h]
+
+theorem aliasRun_run (H : HandleOps σ) (amount : Nat) (body : Vars → σ → BodyResult × Vars × σ)
+    (scope : Str) (args : List Str) (vars : Vars) (st : σ) (h : ¬ args.length < amount) :
+    aliasRun H amount body scope args vars st =
+      (let p := publish H scope args vars (H.setCtx st scope)
+       let b := body p.2.1 p.2.2
+       let c := cleanup H scope (H.getCtx st) p.1 b.2.1 b.2.2
+       (if vars.length < c.1.length then .crash (leakMsg (c.1.length - vars.length)) else resultOf b.1,
+        c.1, c.2)) := by
+  unfold aliasRun
+  simp only [h, if_false]
+  split <;> rfl
+
+/-! ### option/bool plumbing -/
+
+theorem bne_eq_not_some_beq (k h : Str) : (k != h) = !(some h == some k) := by
+  by_cases e : k = h
+  · subst e; simp
+  · have h1 : (k == h) = false := by simpa using e
+    have h2 : (h == k) = false := by simpa using fun x : h = k => e x.symm
+    simp [bne, h1, h2]
+
+theorem beq_eq_some_beq (k h : Str) : (k == h) = (some h == some k) := by
+  by_cases e : k = h
+  · subst e; simp
+  · have h1 : (k == h) = false := by simpa using e
+    have h2 : (h == k) = false := by simpa using fun x : h = k => e x.symm
+    simp [h1, h2]
+
+/-! ### the per-script checker over the regenerated table -/
+
+/-- Callees without any effect on variables other than through their output variable (which the
+    script names, see `C19_scripts_prefix_discipline`) or - `for`/`end` - the loop variable.
+    Their purity is TRUSTED (exercised by the harness on the real commands), not proved:
+    flow control and conditions; pure values; handle allocation / mutation / release; file
+    system, network and console effects. -/
+def noVariableEffect : List Str :=
+  (["for", "end", "if", "elif", "else", "while", "not", "trigger_error",
+    "set", "equals", "calc", "strlen", "substring", "contains", "starts_with", "replace", "lowercase",
+    "is_empty", "is_defined", "is_array", "array_length", "map_size", "set_size", "map_get",
+    "os_family", "os_name", "os_release", "os_version", "is_file", "dirname", "basename", "digest",
+    "base64_encode", "base64_decode", "map_to_properties",
+    "array", "set_new", "map_keys", "env_to_map", "glob_array",
+    "array_push", "array_pop", "set_put", "release",
+    "echo", "cp", "chmod", "http_client"] : List String).map String.toList
+
+/-- the documented exceptions: `unset` exists to remove the CALLER's variables whose names it is
+    given, and does so through `set_by_name` -/
+def documentedEffect (s : Generated.ScriptCmd) (callee : Str) : Bool :=
+  s.scopeName == "scope::unset".toList && callee == "set_by_name".toList
+
+/-- another script command of the table (covered by the same facts) -/
+def isScriptCommand (callee : Str) : Bool :=
+  Generated.scripts.any fun s => s.name == callee || s.aliases.contains callee
+
+def calleeOK (s : Generated.ScriptCmd) (callee : Str) : Bool :=
+  noVariableEffect.contains callee || isScriptCommand callee || documentedEffect s callee
+
+/-- all three facts for one entry, in one evaluation of the parser -/
+def scriptOK (s : Generated.ScriptCmd) : Bool :=
+  match parseText s.script with
+  | .ok is => (writtenVars is).all (underPrefix s.scopeName) && (callees is).all (calleeOK s)
+  | .error _ => false
+
+theorem scripts_all_ok : Generated.scripts.all scriptOK = true := by decide +kernel
+
+theorem scriptOK_of_mem {s : Generated.ScriptCmd} (hs : s ∈ Generated.scripts) : scriptOK s = true :=
+  List.all_eq_true.mp scripts_all_ok s hs
 
 end Duck.Alias
